@@ -391,6 +391,43 @@ def r14_5(ctx):
     ctx.floor("R14.5", 2)
 
 
+def r14_7(ctx):
+    """'No trial step is shorter than dt_min except one clipped to end at ts[-1]' -- also the first one.  The prologue of
+    integrate and the first pass through the stepping loop are evaluated for concrete (dt, dt_min): the first trial
+    [curr_t, next_t] must be at least dt_min long when the initial dt is below dt_min, and must be exactly dt otherwise."""
+    rep, model = ctx.rep, ctx.model
+    rep.rule("R14.7", "adaptive: the first trial step is max(dt, dt_min) long (the initial step size is clamped like every "
+                      "later proposal)")
+    fi, prologue, f, w, tail, epi = ik.loop_structure(model)
+    rep.analysed(fi)
+    F = Fraction
+    for label, dt, dt_min in (("dt < dt_min", F(1, 10 ** 6), F(1, 1000)), ("dt > dt_min", F(1, 10), F(1, 1000)),
+                              ("dt == dt_min", F(1, 1000), F(1, 1000))):
+        steps = []
+        self_obj = ik.make_self(model, True, steps)
+        self_obj.attrs["dt"], self_obj.attrs["dt_min"] = dt, dt_min
+        def getitem(it, obj, idx, node, fi2):
+            if idx == 0:
+                return F(0)
+            if idx == -1:
+                return F(10)
+            raise AnalysisError(f"unexpected index into ts: {idx!r}", where=astq.loc(fi2, node))
+        from ..interp import Obj
+        ts_obj = Obj("ts", getitem_hook=getitem)
+        path, hooks = ik.run_body(model, True, list(prologue) + list(w.body), {},
+                                  env_override={"self": self_obj, "ts": ts_obj, "out_t": F(5)})
+        if not steps:
+            raise AnalysisError(f"R14.7: the first pass of the adaptive loop made no trial step ({label})", where=astq.loc(fi))
+        ta, tb = steps[0][0], steps[0][1]
+        ln = nf.reduce_sqrt(Rat.lift(tb) - Rat.lift(ta)).const_value() if isinstance(tb, Rat) or isinstance(ta, Rat) else F(tb) - F(ta)
+        want = max(dt, dt_min)
+        rep.check(ln is not None and ln == want, "R14.7", astq.loc(fi, steps[0][4]), f"{fi.key}::R14.7::first-trial::{label}",
+                  f"adaptive solve with dt={float(dt):g}, dt_min={float(dt_min):g}: the first trial step is "
+                  f"{float(ln) if ln is not None else '?'} long; it must be {float(want):g} (no trial shorter than dt_min, and "
+                  f"the user's initial step otherwise)", f"first trial {float(want):g}")
+    ctx.floor("R14.7", 3)
+
+
 def run(ctx):
     ctx.guard(r14_1)
     ctx.guard(r14_2)
@@ -403,3 +440,4 @@ def run(ctx):
     # "no trial step is shorter than dt_min except one clipped to end at ts[-1]" / "retried smaller": the trial interval
     # is [curr_t, curr_t + step_size] clipped to ts[-1] -- never stretched beyond the controller's step (exact models)
     ctx.guard(ik.rule_last_steps, "R14.6", True)
+    ctx.guard(r14_7)
